@@ -94,13 +94,22 @@ impl Dictionary for MergedDictionary {
     }
 
     fn get_word_metadata(&self, word: &[char]) -> Option<&WordMetadata> {
+        let mut restricted = None;
+
         for child in &self.children {
             if let Some(found_item) = child.get_word_metadata(word) {
-                return Some(found_item);
+                // The merged dictionary is the union of its children: a word that one child
+                // lists for a single dialect and another child (say, the user's dictionary)
+                // lists without restriction is valid everywhere.
+                if found_item.dialect.is_none() {
+                    return Some(found_item);
+                }
+
+                restricted.get_or_insert(found_item);
             }
         }
 
-        None
+        restricted
     }
 
     fn words_iter(&self) -> Box<dyn Iterator<Item = &'_ [char]> + Send + '_> {
